@@ -146,6 +146,9 @@ func FuzzC11Args(f *testing.F) {
 			}
 		})
 		mb := m.allocatedMB()
+		if o.Slow {
+			return
+		}
 		n++
 		St.Eval(1)
 		if decoded {
@@ -175,6 +178,9 @@ func FuzzC11Args(f *testing.F) {
 			s.Quiesce()
 			ferr = Fsck(s.N.VerifFsState(), FsckOpts{}).Err()
 		})
+		if o.Slow {
+			return
+		}
 		if o.Bad() || ferr != nil {
 			St.Violation("C11", fmt.Sprintf("after procedure %d with %d argument bytes: %v %v", proc, len(args), o, ferr), nil)
 			t.Fatalf("C11: after procedure %d, args %x: %v %v", proc, trimBytes(args, 200), o, ferr)
